@@ -310,12 +310,13 @@ def openEchoPipe : Op := fun s =>
 /-- ModXact::prepEchoing() -/
 def prepEchoing : Op :=
   noBypassNoRepeat ;;
+  -- (source variants with the check) Must(!virgin.header->body_pipe || virginBodySending.active() || !virginConsumed)
+  must (fun s => !(IcapConsts.planChecksConsumed && s.cfg.hasBody && s.vSending.st != .active && s.consumed != 0)) ;;
   must (fun s => s.head == .none) ;;            -- Must(!adapted.header)
   allocClone ;;
   cond (fun s => s.cfg.hasBody)
     (whenOp (fun s => s.vSending.st != .active)
-       (must (fun s => !(IcapConsts.planChecksConsumed && s.consumed != 0)) ;;
-        whenOp (fun s => IcapConsts.replanAfterStopBackup && s.vSending.st == .disabled && s.consumed == 0)
+       (whenOp (fun s => IcapConsts.replanAfterStopBackup && s.vSending.st == .disabled && s.consumed == 0)
           (fun s => { s with vSending := { s.vSending with st := .undecided } }) ;;     -- nothing was echoed yet: its offset is still 0
         planSending) ;;
      must (fun s => s.outSt == .noPipe) ;;       -- makeAdaptedBodyPipe(): Must(!adapted.body_pipe)
@@ -591,19 +592,27 @@ def step (s : St) (e : Ev) : St := if s.stopped then s else finish (handler e s)
 
 def run (s : St) (es : List Ev) : St := es.foldl step s
 
+/-- estimateVirginBody(): plan the writing of the body, sign up as its consumer -/
+def initBody : Op := fun s => if s.cfg.hasBody then { s with vWriting := { st := .active, start := 0 }, consuming := true } else s
+
+/-- canStartBypass = service().cfg().bypass; the Launcher's repeat budget; startWriting() -/
+def initFlags : Op := fun s => { s with canStartBypass := s.cfg.bypass, isRepeatable := s.cfg.repeatable, writing := .connect }
+
+/-- ModXact::decideOnPreview() -/
+def initPreview : Op := fun s =>
+  match s.cfg.previewWanted with
+  | some wanted =>
+    let ad0 := min wanted s.cfg.backupLimit
+    let ad := if !s.cfg.hasBody then 0 else if s.cfg.sizeKnown then min ad0 s.v.length else ad0
+    { s with preview := { st := .writing, written := 0, ad := ad } }
+  | none => s
+
+/-- ModXact::decideOnRetries() and Xaction::openConnection(): only a reused persistent connection keeps the attempt retriable -/
+def initRetries : Op := fun s =>
+  let canBackupAll := !s.cfg.hasBody || (s.cfg.sizeKnown && decide (s.v.length < s.cfg.backupLimit))
+  if (s.preview.st != .disabled || canBackupAll) && s.cfg.reusedPconn then s else { s with isRetriable := false }
+
 /-- ModXact::start() up to openConnection(): estimateVirginBody, canStartBypass, decideOnPreview, decideOnRetries -/
-def init (cfg : Cfg) (v : Bytes) : St :=
-  let s0 : St := { cfg := cfg, v := v }
-  let s1 : St := if cfg.hasBody then { s0 with vWriting := { st := .active, start := 0 }, consuming := true } else s0
-  let s2 : St := { s1 with canStartBypass := cfg.bypass, isRepeatable := cfg.repeatable, writing := .connect }
-  let s3 : St := match cfg.previewWanted with
-    | some wanted =>
-      let ad0 := min wanted cfg.backupLimit
-      let ad := if !cfg.hasBody then 0 else if cfg.sizeKnown then min ad0 v.length else ad0
-      { s2 with preview := { st := .writing, written := 0, ad := ad } }
-    | none => s2
-  let canBackupAll := !cfg.hasBody || (cfg.sizeKnown && decide (v.length < cfg.backupLimit))
-  let s4 : St := if s3.preview.st != .disabled || canBackupAll then s3 else { s3 with isRetriable := false }
-  if cfg.reusedPconn then s4 else { s4 with isRetriable := false }
+def init (cfg : Cfg) (v : Bytes) : St := initRetries (initPreview (initFlags (initBody { cfg := cfg, v := v })))
 
 end SquidModel.Icap
